@@ -42,6 +42,14 @@ fn eval(name: &str, a: &[i64]) -> Option<Vec<i128>> {
         }
         "f2dot14_from_fixed" => vec![F2Dot14::from(Fixed::from_raw(a[0] as i32)).raw_value() as i128],
         "fixed_from_f2dot14" => vec![Fixed::from(F2Dot14::from_raw(a[0] as i16)).raw_value() as i128],
+        "fixed_mul_div" => {
+            let (x, y) = (Fixed::from_raw(a[0] as i32), Fixed::from_raw(a[1] as i32));
+            vec![(x * y).raw_value() as i128, (x / y).raw_value() as i128]
+        }
+        "f2dot14_mul_div" => {
+            let (x, y) = (F2Dot14::from_raw(a[0] as i16), F2Dot14::from_raw(a[1] as i16));
+            vec![(x * y).raw_value() as i128, (x / y).raw_value() as i128]
+        }
         "offset_to_index" => {
             match allsorts::tables::cmap::verif_offset_to_index(a[0] as usize, a[1] as u16, a[2] as u16, a[3] as usize) {
                 Ok(i) => vec![0, i as i128],
